@@ -9,7 +9,7 @@ use crate::hook;
 use crate::prng::mix64;
 use crate::tok::{SpanX, Tok};
 use crate::val::Val;
-use chumsky::input::{BorrowInput, Checkpoint, Cursor, ExactSizeInput, InputRef, MapExtra, SliceInput, ValueInput};
+use chumsky::input::{BorrowInput, Checkpoint, Cursor, ExactSizeInput, InputRef, MapExtra, SliceInput, StrInput, ValueInput};
 use chumsky::inspector::Inspector;
 use chumsky::prelude::*;
 use chumsky::recursive::{Direct, Recursive};
@@ -271,6 +271,10 @@ macro_rules! value_arms_yes {
                     }
                 }
             }
+            G::Padded(a) => {
+                let a = $sub!(a);
+                $erase!($cx, a.padded())
+            }
             G::Any => $erase!($cx, any().map(|t: I::Token| {
                 hook::cb();
                 Val::Tok(t.to_sym())
@@ -449,6 +453,67 @@ where
     .boxed()
 }
 
+fn slice_val<S: SliceX>(s: S) -> Val {
+    hook::cb();
+    Val::Seq(s.syms().into_iter().map(Val::Tok).collect())
+}
+
+/// chumsky::text parsers over any StrInput kind (gram::G::Text, k < 9; k == 7 is `newline()` on
+/// character inputs — it does not exist for byte inputs in this commit, `&str: OrderedSeq<u8>` is
+/// missing — and `inline_whitespace().count()` there).
+pub fn mk_text<'a, I>(k: u8, newline: Option<BP<'a, I>>) -> BP<'a, I>
+where
+    I: StrInput<'a>,
+    I::Slice: SliceX,
+    I::Token: Tok,
+    I::Span: SpanX,
+{
+    use chumsky::text;
+    match k {
+        0 => text::ascii::ident().map(slice_val::<I::Slice>).boxed(),
+        1 => text::unicode::ident().map(slice_val::<I::Slice>).boxed(),
+        2 => text::int(10).map(slice_val::<I::Slice>).boxed(),
+        3 => text::int(16).map(slice_val::<I::Slice>).boxed(),
+        4 => text::digits(10).to_slice().map(slice_val::<I::Slice>).boxed(),
+        5 => text::whitespace().at_least(1).count().map(|n: usize| Val::Num(n as u64)).boxed(),
+        6 => text::inline_whitespace().at_least(1).to_slice().map(slice_val::<I::Slice>).boxed(),
+        7 => match newline {
+            Some(p) => p,
+            None => text::inline_whitespace().at_least(1).count().map(|n: usize| Val::Num(500 + n as u64)).boxed(),
+        },
+        _ => text::whitespace().count().map(|n: usize| Val::Num(n as u64)).boxed(),
+    }
+}
+
+pub fn mk_newline<'a, I>() -> BP<'a, I>
+where
+    I: StrInput<'a>,
+    I::Token: Tok,
+    I::Span: SpanX,
+    &'a str: chumsky::container::OrderedSeq<'a, I::Token>,
+{
+    chumsky::text::newline().to_span().map(|s: I::Span| Val::OnlySpan(s.norm())).boxed()
+}
+
+pub const REGEXES: [&str; 2] = ["[a-c]+[07]*", "[^ \\n0]+"];
+
+/// regex(..) needs a StrInput whose slices are borrowed (`&str`, `&[u8]`): InputRef::full_slice + skip_bytes.
+pub fn mk_regex<'a, I, S>(k: u8) -> BP<'a, I>
+where
+    I: StrInput<'a, Slice = &'a S>,
+    S: ?Sized + AsRef<[u8]> + 'a,
+    &'a S: SliceX,
+    I::Token: Tok,
+    I::Span: SpanX,
+{
+    chumsky::regex::regex::<I, Ex<'a, I>>(REGEXES[(k as usize).saturating_sub(9) % REGEXES.len()])
+        .map_with(|s: &'a S, e: &mut MapExtra<'a, '_, I, Ex<'a, I>>| {
+            hook::cb();
+            Val::Span(e.span().norm(), Box::new(Val::Seq(s.syms().into_iter().map(Val::Tok).collect())))
+        })
+        .boxed()
+}
+
 pub trait Caps<'a>: ValueInput<'a> + Sized
 where
     <Self as Input<'a>>::Token: Tok,
@@ -467,6 +532,9 @@ where
         None
     }
     fn span_from_probe() -> Option<BP<'a, Self>> {
+        None
+    }
+    fn text(_k: u8) -> Option<BP<'a, Self>> {
         None
     }
 }
@@ -493,6 +561,27 @@ macro_rules! cap_fns {
             Some(mk_span_from::<Self>())
         }
     };
+    // byte StrInput with borrowed slices
+    (text_u8) => {
+        fn text(k: u8) -> Option<BP<'a, Self>> {
+            Some(if k >= 9 { mk_regex::<Self, [u8]>(k) } else { mk_text::<Self>(k, None) })
+        }
+    };
+    // byte StrInput whose slice type is owned (bytes::Bytes): no regex
+    (text_owned) => {
+        fn text(k: u8) -> Option<BP<'a, Self>> {
+            if k >= 9 {
+                None
+            } else {
+                Some(mk_text::<Self>(k, None))
+            }
+        }
+    };
+    (text_str) => {
+        fn text(k: u8) -> Option<BP<'a, Self>> {
+            Some(if k >= 9 { mk_regex::<Self, str>(k) } else { mk_text::<Self>(k, Some(mk_newline::<Self>())) })
+        }
+    };
 }
 macro_rules! caps {
     ([$($g:tt)*] $t:ty $(where [$($w:tt)*])? ; $($cap:ident),*) => {
@@ -507,22 +596,22 @@ type CSp = chumsky::span::SimpleSpan<usize, u32>;
 use chumsky::input::{BoxedExactSizeStream, BoxedStream, IoInput, MappedInput, MappedSpan, Stream, WithContext};
 use crate::sources::{SimIter, SimReader};
 
-caps!([] &'a [u8]; slice, borrow, exact);
+caps!([] &'a [u8]; slice, borrow, exact, text_u8);
 caps!([] &'a [char]; slice, borrow, exact);
-caps!([const N: usize] &'a [u8; N]; slice, borrow, exact);
-caps!([] &'a str; slice, exact);
-caps!([] bytes::Bytes; slice, exact);
+caps!([const N: usize] &'a [u8; N]; slice, borrow, exact, text_u8);
+caps!([] &'a str; slice, exact, text_str);
+caps!([] bytes::Bytes; slice, exact, text_owned);
 caps!([] Stream<SimIter<u8>>;);
 caps!([] Stream<SimIter<char>>;);
 caps!([] BoxedStream<'a, u8>;);
 caps!([] BoxedExactSizeStream<'a, u8>; exact);
 caps!([] IoInput<SimReader>;);
-caps!([] WithContext<CSp, &'a [u8]>; slice, borrow, exact);
-caps!([] WithContext<CSp, &'a str>; slice, exact);
+caps!([] WithContext<CSp, &'a [u8]>; slice, borrow, exact, text_u8);
+caps!([] WithContext<CSp, &'a str>; slice, exact, text_str);
 caps!([] WithContext<CSp, Stream<SimIter<u8>>>;);
 caps!([] WithContext<CSp, IoInput<SimReader>>;);
-caps!([F: Fn(SSp) -> CSp + 'a] MappedSpan<CSp, &'a [u8], F>; slice, borrow, exact);
-caps!([F: Fn(SSp) -> CSp + 'a] MappedSpan<CSp, &'a str, F>; slice, exact);
+caps!([F: Fn(SSp) -> CSp + 'a] MappedSpan<CSp, &'a [u8], F>; slice, borrow, exact, text_u8);
+caps!([F: Fn(SSp) -> CSp + 'a] MappedSpan<CSp, &'a str, F>; slice, exact, text_str);
 caps!([F: Fn(SSp) -> CSp + 'a] MappedSpan<CSp, Stream<SimIter<u8>>, F>;);
 caps!([F: Fn(SSp) -> CSp + 'a] MappedSpan<CSp, IoInput<SimReader>, F>;);
 // mapped (token, span) slice: tokens by reference and slices of the underlying pairs; span_from of a
@@ -548,6 +637,7 @@ macro_rules! caps_arms_yes {
                 I::select_ref(mask).expect("harness: input kind lacks BorrowInput")
             }
             G::SpanFrom => I::span_from_probe().expect("harness: input kind lacks ExactSizeInput"),
+            G::Text(k) => I::text(*k).expect("harness: input kind lacks StrInput (or a borrowed slice type for regex)"),
             _ => unreachable!(),
         }
     };
@@ -818,7 +908,7 @@ macro_rules! define_builder {
                 }
                 G::Rec(body) => $rec!($name, cx, &**body),
                 G::RecRef => cx.rec.last().expect("harness: RecRef outside Rec").clone(),
-                other @ (G::Slice(_) | G::AnyRef | G::SelectRef(_) | G::SpanFrom | G::SliceFrom) => $caps_arms!(cx, sub, other),
+                other @ (G::Slice(_) | G::AnyRef | G::SelectRef(_) | G::SpanFrom | G::SliceFrom | G::Text(_)) => $caps_arms!(cx, sub, other),
                 other => $value_arms!($erase, sub, cx, other),
             }
         }
